@@ -229,7 +229,12 @@ func (r *Rig) NewClient(id string) (*RigClient, error) {
 	}
 	if o.Reverse {
 		c.Rev = &RevHandler{ID: id, W: r.W}
-		opts = append(opts, jsonrpc.WithClientHandler("Rev", c.Rev), jsonrpc.WithClientHandlerAlias("rev.alias", "Rev.Aliased"))
+		// two handlers under two namespaces, in either option order
+		h1, h2 := jsonrpc.WithClientHandler("Rev", c.Rev), jsonrpc.WithClientHandler("Rev2", &RevHandler2{ID: id})
+		if id != "" && id[len(id)-1]%2 == 0 {
+			h1, h2 = h2, h1
+		}
+		opts = append(opts, h1, h2, jsonrpc.WithClientHandlerAlias("rev.alias", "Rev.Aliased"))
 	}
 	closer, err := jsonrpc.NewMergeClient(context.Background(), "ws://"+r.Addr(), "Tok", []interface{}{&c.C}, nil, opts...)
 	if err != nil {
